@@ -635,3 +635,19 @@ SEEDED_ON.setdefault("C11", []).extend([
     (_C11F, OP, "    if outputSpacing == inputSpacing:", "    if outputSpacing >= inputSpacing:", "G5"),
     (_C11F, OP, "        Q1 = Q3 = 1.\n", "        Q1 = 1.\n        Q3 = -1.\n", "G"),
 ])
+
+# ---- orientation of the two-step Fresnel propagator (G7, after the fix d2a7e47)
+SEEDED["C11"] += [
+    (OP, "    C = _fresnelTransform(Uitm * numpy.exp( 1j * k/(2*Dz2) * (x1a**2 + y1a**2)), d1a, Dz2)", "    C = fouriertransform.ft2(Uitm * numpy.exp( 1j * k/(2*Dz2) * (x1a**2 + y1a**2)), d1a)", "G7"),
+    (OP, "    C = _fresnelTransform(Uin * numpy.exp(1j * k/(2*Dz1) * (x1**2 + y1**2)), d1, Dz1)", "    C = _fresnelTransform(Uin * numpy.exp(1j * k/(2*Dz1) * (x1**2 + y1**2)), d1, -Dz1)", "G"),
+    (OP, "        return numpy.conj(fouriertransform.ft2(numpy.conj(U), d))", "        return fouriertransform.ft2(numpy.conj(U), d)", "G"),
+]
+BENIGN["C11"] += [
+    (OP, "    if Dz < 0:\n        return numpy.conj(fouriertransform.ft2(numpy.conj(U), d))\n    return fouriertransform.ft2(U, d)",
+     "    if Dz >= 0:\n        return fouriertransform.ft2(U, d)\n    return numpy.conjugate(fouriertransform.ft2(numpy.conjugate(U), d))"),
+    # mirroring the other step instead gives the same output (exactly one of the two steps is mirrored either way)
+    (OP, "    if Dz < 0:\n        return numpy.conj(fouriertransform.ft2(numpy.conj(U), d))", "    if Dz > 0:\n        return numpy.conj(fouriertransform.ft2(numpy.conj(U), d))"),
+]
+SEEDED["C10"] += [
+    (OP, "        return numpy.conj(fouriertransform.ft2(numpy.conj(U), d))", "        return numpy.conj(fouriertransform.ft2(U, d))", "L1"),
+]
